@@ -68,21 +68,6 @@ Definition crashed (o : obs) : bool :=
 Definition spec_holds (c : case) : bool :=
   (negb (c_doc c) || accepted (c_obs c)) && format_ok (c_obs c) (c_fmt c).
 
-(* ---- known findings (printer side, see known_findings.json) ---- *)
-(* C05-K1 (F10): a declaration with a comment sub-directive: every format pass adds a blank
-   in front of the comment text *)
-Definition has_detail_comment (e : s_entry) : bool :=
-  match e with
-  | SAccount _ ds => existsb (fun d => match d with ADComment _ => true | _ => false end) ds
-  | SCommodity _ ds => existsb (fun d => match d with CDComment _ => true | _ => false end) ds
-  | _ => false
-  end.
-Definition known_detail_comment (c : case) : bool :=
-  match c_obs c with
-  | OOk es => existsb (fun e => has_detail_comment (e_entry e)) es
-  | _ => false
-  end.
-
 Definition classify (c : case) : N :=
   match c_obs c with
   | OHarness => 9
@@ -94,8 +79,7 @@ Definition classify (c : case) : N :=
         | FOk f1 o1 _ => obs_matches_model o1 (parse_ledger f1)
         | _ => true
         end in
-      if negb (spec_holds c) then
-        (if accepted (c_obs c) && known_detail_comment c && (negb (c_doc c) || accepted (c_obs c)) then 101 else 2)
+      if negb (spec_holds c) then 2
       else if agree then 0 else 1
   end.
 
